@@ -121,6 +121,48 @@ func genC15(r *rng, n int, thorough bool) []c15Case {
 	return cs
 }
 
+// cause names why a result leaves the expected range, from the operands (used as the finding's key)
+func c15Cause(c *c15Case, metric string) string {
+	az, bz := true, true
+	maxAbs, minD, maxD := 0.0, math.Inf(1), 0.0
+	for i := range c.A {
+		x, y := float64(math.Float32frombits(c.A[i])), float64(math.Float32frombits(c.B[i]))
+		if x != 0 {
+			az = false
+		}
+		if y != 0 {
+			bz = false
+		}
+		maxAbs = math.Max(maxAbs, math.Max(math.Abs(x), math.Abs(y)))
+		if d := math.Abs(x - y); d != 0 {
+			minD, maxD = math.Min(minD, d), math.Max(maxD, d)
+		}
+	}
+	switch metric {
+	case "cosine":
+		switch {
+		case az || bz:
+			return "zero-vector"
+		case maxAbs >= 1e15:
+			return "norm-overflow"
+		case maxAbs <= 1e-15:
+			return "norm-underflow"
+		}
+	case "manhattan":
+		switch {
+		case maxD >= 1e18:
+			return "square-overflow"
+		case minD <= 1e-18:
+			return "square-underflow"
+		}
+	case "euclidean":
+		if maxD >= 1e18 {
+			return "square-overflow"
+		}
+	}
+	return "class-" + c.Class
+}
+
 // tolerance of "the same value up to floating-point rounding": n additions and a few operations per term
 func closeEnough(x, y float32, n int) bool {
 	fx, fy := float64(x), float64(y)
@@ -251,9 +293,15 @@ func runC15Parent(a *args, st *stats, cases []c15Case) error {
 			}
 			for m := 0; m < 3; m++ {
 				x, y := math.Float32frombits(c.Native[m]), math.Float32frombits(other.v[m])
-				if !closeEnough(x, y, c.Len) {
+				ok := closeEnough(x, y, c.Len)
+				if m == 2 && !ok {
+					// 1 - dot/norm lies in [0, 2]: rounding errors of the quotient are absolute, of the order of ulp(1)
+					fx, fy := float64(x), float64(y)
+					ok = !math.IsNaN(fx) && !math.IsNaN(fy) && math.Abs(fx-fy) <= float64(c.Len+8)*math.Pow(2, -23)
+				}
+				if !ok {
 					st.ImplFailures = append(st.ImplFailures, implFailure{Case: i, What: fmt.Sprintf("%s %s distance %v, portable %v (%s)", other.name, metrics[m], y, x, where),
-						Key: fmt.Sprintf("%s:%s:differs:%s", other.name, metrics[m], c.Class), Input: *c})
+						Key: fmt.Sprintf("%s:%s:differs:%s", other.name, metrics[m], c15Cause(c, metrics[m])), Input: *c})
 				}
 			}
 		}
@@ -269,7 +317,7 @@ func runC15Parent(a *args, st *stats, cases []c15Case) error {
 				x := math.Float32frombits(impl.v[m])
 				if x < 0 || math.IsNaN(float64(x)) {
 					st.ImplFailures = append(st.ImplFailures, implFailure{Case: i, What: fmt.Sprintf("%s %s distance is %v (%s)", impl.name, metrics[m], x, where),
-						Key: fmt.Sprintf("%s:%s:not-a-distance:%s", impl.name, metrics[m], c.Class), Input: *c})
+						Key: fmt.Sprintf("%s:%s:not-a-distance:%s", impl.name, metrics[m], c15Cause(c, metrics[m])), Input: *c})
 				}
 				if c.Class == "same" && !(x <= float32(c.Len+8)*float32(math.Pow(2, -23))) {
 					st.ImplFailures = append(st.ImplFailures, implFailure{Case: i, What: fmt.Sprintf("%s %s distance of a vector to itself is %v (%s)", impl.name, metrics[m], x, where),
